@@ -55,7 +55,8 @@ def single_step_space(ctx) -> BoundedResult:
                 if cur is None:
                     expected = "keyerror"  # both backends: documented KeyError for an unknown id, nothing created
                 try:
-                    app.orchestrator.set_invocation_status(inv_id, new, runner_ctx(rid))
+                    # requesters are sibling workers under one parent runner: ownership is per worker, not per parent
+                    app.orchestrator.set_invocation_status(inv_id, new, runner_ctx(rid, parent_id="parent-runner" if rid else None))
                     outcome = "ok"
                 except InvocationStatusError:
                     outcome = "error"
